@@ -97,6 +97,9 @@ def run_one(name, root, wt, hz, threads, known, props=None):
         m = re.search(r"^HANG property=\S+ subject=(\S+)", out, re.M)
         if m:
             sigs.append("%s|terminates|%s|cpu-time-confirmed-hang" % (p, m.group(1)))
+        m = re.search(r"^ABORT property=\S+ subject=(\S+)", out, re.M)
+        if m:
+            sigs.append("%s|returns-normally|%s|process-abort-in-observed-call" % (p, m.group(1)))
         sigs = [s for s in sigs if s not in known]
         note = None
         if code == 2:
